@@ -55,6 +55,12 @@ func (g *mgen) mixinBody(d mdef, idx int, depth int) []interface{} {
 		// the call's attributes: `attributes.class` is the call's own list (or nothing when the call gave no class)
 		out = append(out, nText("at="), nBuf(eDot(eId("attributes"), "class"), true))
 	}
+	if r.Chance(1, 4) {
+		// a body that WRITES into its `attributes` object: the object belongs to this one call (also when the call gave no
+		// attributes at all), so the mark is never there when the next call starts
+		out = append(out, nText("mk="), nBuf(eDot(eId("attributes"), "mark"), true), nRaw(sAssign(eDot(eId("attributes"), "mark"), eStr("M"))),
+			nText("/"), nBuf(eDot(eId("attributes"), "mark"), true))
+	}
 	placeBlock := func() {
 		switch r.Intn(4) {
 		case 0:
